@@ -17,7 +17,8 @@ def events(ctx):
         for _ in range(ctx.q(1500, 100000)):
             cfg = rnd_cfg(rng)
             over = rng.random() < 0.06
-            yield record("pdu.rt", {"kind": k, "cfg": cfg, "p": rnd_params(rng, k, cfg["large"], over), "sfx": []})
+            yield record("pdu.rt", {"kind": k, "cfg": cfg, "p": rnd_params(rng, k, cfg["large"], over),
+                                    "sfx": [] if rng.random() < 0.75 else [rng.randrange(256) for _ in range(rng.randrange(1, 6))]})
 
 
 def run(ctx):
